@@ -40,7 +40,7 @@ META = {
  "C04": {
   "text": "Runtime monitoring: at every validated refresh in generated histories the wallet's books are compared with the real chain's UTXO set, heights and coinbase flags (membership, balance partition for four confirmation settings, ledger equality, cross-account frame condition). Once per history the chain grows by more than 50 blocks while transactions are pending. Histories include self-paid invoices, coinbases re-requested for a candidate's key while another account is active (a record must carry a key of the account it is kept under), and a second job (c04m) runs a new-seed wallet whose coinbases go to a non-active account and judges each account after its own refresh.",
   "design_ref": "DESIGN.md section 5 C04",
-  "note": "Chain truth is read from grin_chain directly; histories that the statement excludes (cancel after broadcast, reorganisation) are not generated.",
+  "note": "Chain truth is read from grin_chain directly; histories that the statement excludes (cancel after broadcast, reorganisation) are not generated. Known open finding: an unconfirmed output reserved with minimum_confirmations = 0 loses the link to its creating transaction (known_findings.json).",
   "technique": "runtime monitoring: chain-truth oracle evaluated at every successful refresh over generated histories",
  },
  "C15": {
@@ -70,7 +70,7 @@ META = {
  "C05": {
   "text": "Runtime monitoring with a before/after oracle on real wallets: every pending kind at every stage is cancelled in the presence of other reservations and the complete observable state is compared with the snapshot taken just before the transaction existed. Every third case places pending entries with the same per-account log ids into the wallet's other account (the compared view covers every account); refusal cases include a transaction that is already mined but not yet seen by the wallet (with and without change output); every fourth case runs on coins that were restored by a scan. Self-sends and re-received slates are cancelled by slate id (one id standing for several entries); a cancel request naming no transaction is a refusal case.",
   "design_ref": "DESIGN.md section 5 C05",
-  "note": "Directed enumeration of kinds/stages/addressing (hundreds of cases), parameters drawn per case.",
+  "note": "Directed enumeration of kinds/stages/addressing (hundreds of cases), parameters drawn per case. Known open finding: same root cause as C04's (known_findings.json).",
   "technique": "runtime monitoring: exact-rollback oracle (state snapshot before create vs after cancel) over enumerated pending-transaction kinds",
  },
  "C02": {
@@ -106,7 +106,7 @@ META = {
  "C18": {
   "text": "Runtime monitoring on a real grin_chain::Chain that the harness reorganises block by block: after every reorganisation the recipient's records, balance figures and coin selection are judged against kernel and UTXO membership read from the chain. In every other scenario the recipient wallet has a second account whose log entries carry the same per-account ids as the payment. Every other payment carries a time-to-live that has passed when it is reorganised away; every fifth scenario the recipient has reserved (and possibly released again) the received output for a payment of its own before the reorganisation (open finding).",
   "design_ref": "DESIGN.md section 5 C18",
-  "note": "Fork blocks carry neutral coinbases; flip-flop depth is bounded to 0-3 blocks below the receiving block.",
+  "note": "Fork blocks carry neutral coinbases; flip-flop depth is bounded to 0-3 blocks below the receiving block. Known open finding: a revert is not tracked once the recipient has reserved the received output (known_findings.json).",
   "technique": "runtime monitoring: chain-truth oracle over generated reorganisation scenarios on a real chain",
  },
  "C20": {
